@@ -21,6 +21,8 @@ pub enum Profile {
     Crashy,
     /// hostile bytes and numeric extremes (C06)
     Hostile,
+    /// Crashy + C09 probes after the history quiesced
+    Probe,
     /// rejecting HTLCs in multi-part sets (C07/C12)
     Reject,
     /// classification product (C10)
@@ -57,7 +59,7 @@ pub fn gen_cfg(rng: &mut Rng, prof: &Profile, tier_thorough: bool) -> SimCfg {
         _ => *rng.pick(&[60u64, 60, 60, 1, 5, 0, 3600]),
     };
     let mpp_s = if *prof != Profile::Mixed && *prof != Profile::Hostile && mpp_s == 0 { 60 } else { mpp_s };
-    let crashy = matches!(prof, Profile::Crashy | Profile::Mixed | Profile::Hashes | Profile::Timeout);
+    let crashy = matches!(prof, Profile::Crashy | Profile::Probe | Profile::Mixed | Profile::Hashes | Profile::Timeout);
     SimCfg {
         base,
         ppm,
@@ -72,7 +74,7 @@ pub fn gen_cfg(rng: &mut Rng, prof: &Profile, tier_thorough: bool) -> SimCfg {
         max_faults: 2,
         max_crashes: if crashy { rng.below(3) as u32 } else { 0 },
         max_steps: 400,
-        probe: false,
+        probe: *prof == Profile::Probe,
         age_pending_secs: None,
     }
 }
@@ -165,7 +167,7 @@ pub fn gen_plan(rng: &mut Rng, prof: &Profile, thorough: bool) -> Plan {
             salt: 200 + idx as u8,
         });
         let recipient = match prof {
-            Profile::Crashy | Profile::Mixed => *rng.pick(&[Recipient::Settle, Recipient::Settle, Recipient::Mixed, Recipient::FailAll]),
+            Profile::Crashy | Profile::Probe | Profile::Mixed => *rng.pick(&[Recipient::Settle, Recipient::Settle, Recipient::Mixed, Recipient::FailAll]),
             _ => *rng.pick(&[Recipient::Settle, Recipient::Settle, Recipient::Settle, Recipient::Mixed, Recipient::FailAll]),
         };
         hashes.push(HashInfo { idx, preimage: pre, hash, hex: hex::encode(hash), tramp: tramp_info(&base_inv, 1000, &cfg), recipient });
@@ -253,7 +255,7 @@ pub fn gen_plan(rng: &mut Rng, prof: &Profile, thorough: bool) -> Plan {
             (_, 0) => need.saturating_sub(1),
             (_, 1) => need + 1,
             (_, 2) => need + rng.below(1_000_000) as u128,
-            (_, 3) if *prof != Profile::Crashy => need / 2,
+            (_, 3) if *prof != Profile::Crashy && *prof != Profile::Probe => need / 2,
             _ => need,
         };
         let honest_total = funding.min(u64::MAX as u128) as u64;
